@@ -608,6 +608,7 @@ PROPS["C08"] = dict(
     units=[
         rapid("Stress", "TestStress", 400, 6000, shards=(8, 16), config_toml=_NET, timeout=dict(quick=600, thorough=3000), flaky_ok=True),
         rapid("Fanout", "TestFanout", 160, 2400, shards=(4, 8), config_toml=_NET, timeout=dict(quick=600, thorough=3000), flaky_ok=True),
+        rapid("LatePart", "TestLatePart", 12, 96, shards=(4, 8), config_toml="[network]\ntimeout_seconds = 5\n", timeout=dict(quick=600, thorough=3000), flaky_ok=True),
     ],
     manifest=dict(
         text=("Generated concurrent stimulus (keys from one goroutine each, resize poller, randomised latencies) under the Go race "
